@@ -207,6 +207,8 @@ def shim_float(x=0.0):
     return builtins.float(x)
 def shim_bool(x=False):
     return builtins.bool(x)
+import numpy as _rnp_l
+shim_int.dtype = _rnp_l.dtype('int64'); shim_float.dtype = _rnp_l.dtype('float64'); shim_bool.dtype = _rnp_l.dtype('bool')      # numpy's dtype protocol: dtype=int / float / bool
 def shim_abs(x): return builtins.abs(x)
 def _pick(seq, better):
     seq = list(seq); best = seq[0]
